@@ -102,6 +102,7 @@ class Tr:
         self.types = {}
         self.static = {}
         self.narrow = {}
+        self.aux = []
         self.tmp = 0
 
     def fresh(self, base="t"):
@@ -417,6 +418,10 @@ class Tr:
                 if ty in ("Tok", "IntStr"): return "true", "StaticBool"
                 if ty in ("Dec", "Nat", "Int"): return "false", "StaticBool"
                 raise Untranslatable("hasattr(%s, '__len__')" % ty)
+            if n == "sorted" and len(e.args) == 1 and not e.keywords:
+                t, ty = self.E(e.args[0], pre)
+                if ty != "NatList": raise Untranslatable("sorted(%s)" % ty)
+                return "(PPy.sortedNat %s)" % t, "NatList"
             if n == "_ymd" and not e.args and not e.keywords:
                 return "({} : PM.Ymd)", "Ymd"
             if n == "tuple" and len(e.args) == 1:
@@ -476,7 +481,7 @@ class Tr:
             a, ta = self.E(e.args[0], pre); b, tb = self.E(e.args[1], pre)
             if (ta, tb) != ("Toks", "NatList"): raise Untranslatable("_recombine_skipped(%s, %s)" % (ta, tb))
             x = self.fresh("sk")
-            pre.append((x, "PM.recombineSkipped %s %s" % (a, b), "Toks"))     # named primitive (hand model) until it is translated
+            pre.append((x, "Gen.P.recombineSkipped info %s %s" % (a, b), "Toks"))
             return x, "Toks"
         if isinstance(f, ast.Attribute) and ast.unparse(f) == "relativedelta.relativedelta" and not e.args \
                 and len(e.keywords) == 1 and e.keywords[0].arg == "weekday":
@@ -874,6 +879,11 @@ class Tr:
                 a, ta = self.E(v.args[1], pre); b, tb = self.E(v.args[2], pre)
                 return "Gen.P.assignHms cls info %s %s %s" % (v.args[0].id, self.coerce(a, ta, "Tok", pre), self.coerce(b, tb, "Nat", pre))
             return v.args[0].id, build
+        if rt == "Toks" and v.func.attr == "append" and len(v.args) == 1:
+            def build(pre):
+                a, ta = self.E(v.args[0], pre)
+                return ".ok (%s ++ [%s])" % (recv, self.coerce(a, ta, "Tok", pre))
+            return recv, build
         if rt == "NatList" and v.func.attr == "append" and len(v.args) == 1:
             def build(pre):
                 a, ta = self.E(v.args[0], pre)
@@ -1012,6 +1022,40 @@ class Tr:
             for k2, n in enumerate(state):
                 out += "let %s := %s\n" % (self.lname(n), x + ".2" * k2 + (".1" if k2 < len(state) - 1 else ""))
             return "Except.bind (%s fuel cls info %s) (fun %s =>\n%s%s)" % (fn_, " ".join(self.lname(a) for a in args), x, out, nxt())
+        if isinstance(s, ast.For) and isinstance(s.iter, ast.Call) and isinstance(s.iter.func, ast.Name) and s.iter.func.id == "enumerate" \
+                and len(s.iter.args) == 1 and isinstance(s.target, ast.Tuple) and len(s.target.elts) == 2 \
+                and all(isinstance(x, ast.Name) for x in s.target.elts) and not s.orelse \
+                and not self.has(s.body, (ast.Break, ast.Continue, ast.Return)):
+            # a loop over a list computed at run time: a structurally recursive auxiliary function over that list, with the index
+            pre = []
+            it, ti = self.E(s.iter.args[0], pre)
+            if ti != "NatList": raise Untranslatable("enumerate over %s" % ti)
+            iv, xv = s.target.elts[0].id, s.target.elts[1].id
+            live_after = self.live_in(rest, live_out)
+            state = [v for v in self.assigned(s.body) if v in live_after or v in self.reads(s.body)]
+            free = sorted(n for n in self.reads(s.body) if n in self.types and n not in state and n not in (iv, xv, "self", "info")
+                          and self.types[n] not in ("Parser",))
+            aux = "%s_loop" % self.spec.leanname
+            sub = Tr(self.spec, self.tree)
+            sub.types = dict(self.types); sub.static = dict(self.static); sub.tmp = 100
+            sub.types[iv] = "Nat"; sub.types[xv] = "Nat"
+            lead = "cls " if any(c[0] == "cls" for c in self.spec.ctx) else ""
+            call = lambda: "%s %sinfo %s rest_ (%s + 1) %s" % (aux, lead, " ".join(sub.lname(n) for n in free), iv,
+                                                              " ".join(sub.lname(n) for n in state))
+            body = sub.B(s.body, call, set(state))
+            for v in state:
+                if sub.types.get(v) != self.types.get(v): raise Untranslatable("loop variable %s changes type" % v)
+            sty = " × ".join(lty(self.types[v]) for v in state)
+            self.aux.append(
+                "/-- the `for … in enumerate(…)` loop of `%s`, by recursion on the list being enumerated -/\ndef %s %s(info : PM.Info) %s : List Nat → Nat → %s → Py.R (%s)\n| [], _, %s => .ok %s\n| %s :: rest_, %s, %s =>\n%s\n" % (
+                    self.spec.qualname, aux, "(cls : Char → PM.CClass) " if lead else "",
+                    " ".join("(%s : %s)" % (self.lname(n), lty(self.types[n])) for n in free),
+                    " → ".join(lty(self.types[v]) for v in state), sty, ", ".join(self.lname(v) for v in state), self.ret_text(state),
+                    xv, iv, ", ".join(self.lname(v) for v in state), body))
+            tmp = self.fresh("j")
+            return self.wrap(pre, "Except.bind (%s %sinfo %s %s 0 %s) (fun %s =>\n%s%s)" % (
+                aux, lead, " ".join(self.lname(n) for n in free), it, " ".join(self.lname(v) for v in state), tmp,
+                self.unpack(state, tmp), nxt()))
         if isinstance(s, ast.For):
             if s.orelse or not isinstance(s.target, ast.Name) or not isinstance(s.iter, (ast.Tuple, ast.List)) \
                     or not all(isinstance(x, ast.Constant) for x in s.iter.elts) or self.has(s.body, (ast.Break, ast.Continue, ast.Return)):
@@ -1186,6 +1230,8 @@ class Tr:
             out += "let %s := %s.2.1\nlet %s := %s.2.2\n" % (names[3], x, names[4], x)
             return self.wrap(pre, out + nxt())
         t, ty = self.E(value, pre)
+        if isinstance(target, ast.Name) and isinstance(value, ast.List) and not value.elts and self.spec.locals.get(target.id) == "Toks":
+            t, ty = "([] : List PM.Token)", "Toks"
         if isinstance(target, ast.Name) and ty == "Info":
             if t != "info" or target.id != "info": raise Untranslatable("a second parserinfo")
             return nxt()
@@ -1216,6 +1262,9 @@ class Tr:
         if isinstance(target, ast.Subscript) and isinstance(target.value, ast.Name) and self.types.get(target.value.id) == "Toks":
             d = target.value.id
             ix, ti = self.E(target.slice, pre)
+            if ti == "Int" and ix == "(-1)":
+                return self.wrap(pre, "Except.bind (PPy.toksSetLast %s %s) (fun l_ =>\nlet %s := l_\n%s)" % (
+                    d, self.coerce(t, ty, "Tok", pre), self.lname(d), nxt()))
             if ti != "Nat": raise Untranslatable("token list index of type %s" % ti)
             # `l[k] = v` for an index already read (`l[k]` evaluated in `value`): IndexError otherwise
             return self.wrap(pre, "Except.bind (PPy.toksSet %s %s %s) (fun l_ =>\nlet %s := l_\n%s)" % (
@@ -1393,7 +1442,7 @@ class Tr:
             live = set()
         body = self.B(stmts, k, live)
         if getattr(self, "uses_fuel", False): params.insert(0, "(fuel : Nat)")
-        return "/-- translated from `%s:%s`%s -/\ndef %s %s : Py.R (%s) :=\n%s\n" % (
+        return "".join(self.aux) + "/-- translated from `%s:%s`%s -/\ndef %s %s : Py.R (%s) :=\n%s\n" % (
             relfile, sp.qualname, " (%s)" % ", ".join("%s : %s" % p for p in sp.params) if sp.params else "",
             sp.leanname, " ".join(params), lty(sp.ret), body)
 
@@ -1472,6 +1521,8 @@ PARSER_SPECS = [
     PFn("parser._parse_numeric_token", "parseNumericToken",
         [("tokens", "Toks"), ("idx", "Nat"), ("info", "Info"), ("ymd", "Ymd"), ("res", "Res"), ("fuzzy", "Bool")], "NumRet",
         self_type="Parser", ctx=[CLS], returns=["idx", "ymd", "res"], locals_={"idx": "Nat"}, inlines=YMD_PROPS),
+    PFn("parser._recombine_skipped", "recombineSkipped", [("tokens", "Toks"), ("skipped_idxs", "NatList")], "Toks",
+        self_type="Parser", locals_={"skipped_tokens": "Toks"}),
     PFn("parser._parse", "parseStep",
         [("l", "Toks"), ("i", "Nat"), ("len_l", "Nat"), ("info", "Info"), ("res", "Res"), ("ymd", "Ymd"),
          ("skipped_idxs", "NatList"), ("fuzzy", "Bool"), ("timestr", "Skip")], "StepRet", self_type="Parser", ctx=[CLS],
